@@ -22,7 +22,7 @@ namespace LemoModel.Journal
 /-- an asset record: total supply and the two profile values the harness uses (0 = "") -/
 structure Asset where
   supply : Int
-  p1 : Nat
+  p1 : Nat      -- raw profile slot of key k1: 0 = absent, n+1 = present with value n
   p2 : Nat
   deriving DecidableEq, Repr, Inhabited
 
@@ -176,7 +176,10 @@ def applyWrite (a : Acct) : Write → WRes
   | .assetCodeState c key v =>
     match a.getAssetCode c with
     | none => .logErr (.assetCodeState c key 0)   -- NewAssetCodeStateLog tolerates ErrAssetNotExist; the raw setter then fails
-    | some as => .ok (a.setAssetCodeRaw c (some (setAssetProfile as key v))) (.assetCodeState c key (getAssetProfile as key))
+    -- profile slots are RAW: 0 = the key is absent, n+1 = present with value n (value 0 = ""). The setter makes the key
+    -- present; the log remembers the raw old slot, so that undo removes a key that did not exist (fix after 121c785:
+    -- the code before it restored such a key as "" and the asset's encoding — hence the block's roots — changed)
+    | some as => .ok (a.setAssetCodeRaw c (some (setAssetProfile as key (v + 1)))) (.assetCodeState c key (getAssetProfile as key))
   | .assetCodeSupply c v =>
     match a.getAssetCode c with
     | none => .panic
